@@ -21,9 +21,9 @@ NOT_DECIDED = "map semantics of the hash table under all histories (resize-until
 TRUSTED = ["clang 14 parser/CFG builder", "echse-facts extractor", "python rule engines in /verif/sa"]
 LEVEL_TEXT = ("Static verdict on necessary structural clauses of C11 over all paths of the daemon's command layer: authorisation dominates "
               "every effect on a looked-up task, one reply per instruction with the right polarity, run-as provenance. It decides those "
-              "clauses, not the map semantics of the table.")
+              "clauses, not the map semantics of the table. Also: the 12-row decision table of the submission gate (asker, owner, daemon uid) and the rule that table slot indices are not kept across a re-hash.")
 LEVEL_NOTE = "Trusted: clang 14 front end/CFG, extractor, rule engines. Hash-table behaviour under collisions is not decided."
-TECHNIQUE = "static analysis: dominance via forward must-facts on clang CFGs, path-sensitive abstract walk, def-use provenance"
+TECHNIQUE = "static analysis: dominance via forward must-facts on clang CFGs, path-sensitive abstract walk, def-use provenance; value-fixed decision-table walk of the submission gate"
 
 OWN_PRED = "echs_task_owned_by_p"
 OWNER_FN = "echs_task_owner"
